@@ -268,6 +268,9 @@ def c18(run, scratch):
 
 
 def c19(run, scratch):
+    # symbolic: the page arithmetic for every image length / page size / page count (Apalache, SMT)
+    apa = tlc.apalache('DfuPadApa', scratch)
+    run.coverage['apalache_page_arithmetic_all_sizes'] = {'Inv (0 = holds)': apa['Inv'], 'InvMutant (12 = refuted)': apa['InvMutant']}
     _common(run, scratch, C19_CLAUSES)
 
 
